@@ -177,6 +177,13 @@ func genCast(r *gen.R, validOnly bool) (mon.OpReq, Expect, bool) {
 	for i := range x.Bits {
 		x.Bits[i] = castValue(r, from, to)
 	}
+	if from.IsFloat() && !validOnly && r.Chance(0.04) { // zeros of both signs side by side: each keeps its sign in a float target
+		for i := range x.Bits {
+			if r.Chance(0.85) {
+				x.Bits[i] = ref.EncF(from, r.PickFloat(0, math.Copysign(0, -1)))
+			}
+		}
+	}
 	req := mon.OpReq{Op: "Cast", Inputs: []*ref.T{x}, Attrs: []*mon.Attr{mon.AttrI("to", int64(to.OnnxCode()))}}
 	if !validOnly && r.Chance(0.12) {
 		switch r.Intn(3) {
@@ -213,8 +220,13 @@ func genCast(r *gen.R, validOnly bool) (mon.OpReq, Expect, bool) {
 	if from == ref.I8 || from == ref.U8 {
 		kind, why = MayRefuse, "int8/uint8 sources may be refused by the gate"
 	}
-	// NaN payloads are not defined by a C-style conversion: NaN matches NaN
-	return req, Expect{Kind: kind, Want: Exact(want), Mode: CmpIEEE, Why: why}, true
+	// NaN payloads are not defined by a C-style conversion: NaN matches NaN; between float types
+	// the conversion of a zero is exact, sign included
+	mode := CmpIEEE
+	if from.IsFloat() && to.IsFloat() {
+		mode = CmpSigned
+	}
+	return req, Expect{Kind: kind, Want: Exact(want), Mode: mode, Why: why}, true
 }
 
 // castValue draws a source value representable in the target type.
